@@ -70,12 +70,12 @@ def gen_consts(acts, w=6, batch=2, snap=3, comp=2, dele=2, crash=3, genlen=12, d
             "Acts": q(*acts), "CrashIn": q(*crash_in)}
 
 
-def generate(ctx, sd, name, consts, num, variants=3):
+def generate(ctx, sd, name, consts, num, variants=3, seed=None):
     """Simulation prints, for every random trace, one behaviour per successor of its last-but-one state.
     Keep at most `variants` of those per trace (they share GenLen-1 steps), preferring different actions."""
     ctx.write_cfg(sd, name + ".cfg", "GSpec", consts, extra="INVARIANT Emit")
     gl = consts["GenLen"]
-    behs = ctx.tlc_generate(sd, "TSMEngineGen", name + ".cfg", num=num, depth=gl + 1, timeout=600)
+    behs = ctx.tlc_generate(sd, "TSMEngineGen", name + ".cfg", num=num, depth=gl + 1, timeout=600, seed=seed)
     rnd = random.Random(ctx.seed)
     groups = {}
     for b in behs:
@@ -157,3 +157,54 @@ def known_behaviours(ctx):
     for p in sorted(glob.glob(os.path.join(os.path.dirname(os.path.dirname(os.path.abspath(__file__))), "replays", ctx.prop, "known-*.json"))):
         out.append(json.load(open(p))["replay"]["behaviour"])
     return out
+
+
+def _bounds(st):
+    """real bounds of a delete step (None = open-ended: MinInt64 / MaxInt64), as the harness builds the condition"""
+    lo = None if (st.get("open") and st["lo"] == 0) else st["lo"]
+    hi = None if (st.get("open") and st["hi"] == 2) else st["hi"]
+    return lo, hi
+
+
+def shared_bound_pairs(beh):
+    """Number of pairs of completed deletes on data that is already in a TSM file, with no compaction in between,
+    whose ranges share exactly ONE bound and are not simply 'same selection, later range contains the earlier'
+    (tombstones of one file that differ in one bound only: TSMReader.applyTombstones batches by range)."""
+    n = 0
+    dels = []
+    for i, st in enumerate(beh):
+        if st["a"] == "compact" or (st["a"] == "crash" and st.get("in") == "compact"):
+            dels = []
+        if st["a"] != "delete" or i == 0 or beh[i - 1]["st"]["nfiles"] < 1 or not beh[i - 1]["st"]["up"]:
+            continue
+        if beh[i - 1]["st"]["read"] == st["st"]["read"]:
+            continue                                    # removed nothing
+        lo, hi = _bounds(st)
+        for (plo, phi, psel) in dels:
+            one = (plo == lo) != (phi == hi)
+            nested = sorted(psel) == sorted(st["sel"]) and (lo is None or (plo is not None and lo <= plo)) and (hi is None or (phi is not None and hi >= phi))
+            if one and not nested:
+                n += 1
+        dels.append((lo, hi, st["sel"]))
+    return n
+
+
+def generate_shared_bound(ctx, sd, name, consts, num, keep, need):
+    """Targeted profile: keep only behaviours with >= 1 shared-bound delete pair that is followed by at least one more
+    step (every step boundary recovers a crash image, i.e. re-reads the tombstone files) - deterministic content."""
+    sel = []
+    total = 0
+    for attempt in range(4):                            # top up with further seeds until the batch has what it is for
+        behs = generate(ctx, sd, name, consts, num=num, variants=6, seed=ctx.seed + 7919 * attempt)
+        total += len(behs)
+        for b in behs:
+            if shared_bound_pairs(b) >= 1:
+                sel.append(b)
+        if len(sel) >= need:
+            break
+    behs = range(total)
+    sel.sort(key=lambda b: -shared_bound_pairs(b))
+    log("  %s: %d of %d behaviours contain deletes sharing exactly one bound on file data; keeping %d" % (name, len(sel), len(behs), min(keep, len(sel))))
+    if len(sel) < need:
+        raise Infra("%s: only %d behaviours with two deletes sharing one bound (need %d)" % (name, len(sel), need))
+    return sel[:keep]
